@@ -55,7 +55,7 @@ def build(verbose=False):
         if not os.path.exists(os.path.join(d, 'ok')):
             # drop stale caches (disk is limited)
             olds = sorted([o for o in glob.glob(os.path.join(CACHE, 'lib-*')) if o != d], key=os.path.getmtime)
-            for old in olds[:-5]:
+            for old in olds[:-12]:
                 shutil.rmtree(old, ignore_errors=True)
             shutil.rmtree(d, ignore_errors=True)
             os.makedirs(d)
